@@ -4,6 +4,10 @@ VERIF = os.path.abspath(os.path.join(os.path.dirname(__file__), "..", ".."))
 HOOK_COMMITS = ["926b3d3"]
 TLC_TECH = "TLA+ model checking (TLC) + trace validation of the real code against the specification"
 CLAIMS = {
+ "C01": dict(
+   text="Malform.tla (TLC) walks 14 well-formed templates (v1/v2c/v3 x Response/Report x plain/auth/DES/AES, all value kinds, exception values, a plaintext scoped PDU) and applies at every TLV node every mutation derived from the BER position machine (truncation at every offset, length-octet rewrites, long forms of 1..9 octets, every known tag, class/constructed bits, long-form tags, emptied/inserted contents, trailing octets: 11 000 datagrams); a family of 36 relative-OID replies, ByteStrings.tla (all strings of <=4-5 octets over 14 byte classes) and all 65 792 strings of <=2 octets are added. Every datagram goes to the three message decoders, SnmpValue::from_ber and both ciphers' decrypt (Rust replay binary, release semantics, catch_unwind, time limit) and to real sessions of the matching version/security level with each of get/get_many/getnext/getbulk/refresh pending (ids patched to match, mutated scoped PDUs encrypted under the session key, odd privacy-parameter/ciphertext sizes). TraceCodec.tla judges totality: ok/err from decoders; a value, a skip or a documented Exception from the API - never PanicException, abort or hang.",
+   note="Memory safety ('touches memory outside the received bytes') is only observed through functional symptoms on the replayed inputs, not proved (DESIGN.md 6). Datagrams are <= ~300 octets in the structured corpus.",
+   ref="DESIGN.md 5 C01", technique="TLC-generated malformed-datagram corpus (position-machine mutations) + TLC trace validation of totality on decoders and real sessions"),
  "C02": dict(
    text="Values.tla (TLC) enumerates boundary encodings of every SNMP value type and boundary OID names; each is carried at first/middle/last position of replies to get/get_many/getnext/getbulk over v1, v2c and v3 (plain, auth, DES, AES) on the real sockets, together with seeded random values over the full ranges (i64, u32, u64, octets, arcs < 2^32, REAL). TraceSession.tla decodes the logged reply octets with the TLA+ BER/SNMP codec and requires the Python result to equal PyValue(Denote(varbind)) and the key to equal OidToText(name).",
    note="Rounding of decimal REALs and >53-bit mantissas is delegated to CPython float/fractions (uninterpreted in the spec). Replies are built by an untrusted reference encoder whose every octet is re-decoded by TLC.",
